@@ -119,6 +119,7 @@ func safeEncode(img image.Image, o *webp.EncoderOptions) (out []byte, err error,
 
 func checkC20(args []string) {
 	run := vx.NewRun("C20", "model_checking", args)
+	activeRun = run
 	run.Rule = "TLC enumerates every pair of EncoderOptions fields over their boundary lists (all other fields at DefaultOptions()) from spec/Options.tla, with the documented verdict (must fail / must succeed) and the sentinel-resolved option set; each is run through webp.Encode under recover: invalid => error, valid => file accepted by Decode and by the strict TLA+ container reader, Encode(o) = Encode(Resolve(o)) byte for byte, lossy-only and no-effect fields do not change lossless output; plus nil arguments, boundary image sizes, oversized metadata. distinct = distinct option sets evaluated"
 	run.Assumptions = []string{"validity and sentinel meaning are those of the EncoderOptions doc comments", "one 17x13 picture with graded alpha (so that the alpha options matter); boundary image dimensions are tested with default options"}
 	res := vx.MustTLC(vx.TLCOpts{Module: "Options", Cfg: "GEN_Options.cfg", Workers: 1, Timeout: 30 * time.Minute, Heap: "8g"})
